@@ -560,9 +560,21 @@ class Cons:
                 self.rel.append(("Ne", t, const(v)))
         return True
 
+    @staticmethod
+    def _upd_variant(t):
+        """an enum value updated in place through a downcast (`upd(x, as(V), ..)`) is of variant V"""
+        while isinstance(t, tuple) and t and t[0] == "upd" and len(t) == 4:
+            if isinstance(t[2], tuple) and t[2] and t[2][0] == "as":
+                return t[2][1]
+            t = t[1]
+        return None
+
     def set_variant(self, t, name):
         if is_agg(t):
             return t[3] == name
+        uv = self._upd_variant(t)
+        if uv is not None:
+            return uv == name
         if isinstance(t, tuple) and t and t[0] == "optif" and name in ("Some", "None"):
             return self.set_known(t[1], 1 if name == "Some" else 0)
         if t in self.variant:
@@ -576,6 +588,9 @@ class Cons:
     def set_notvariant(self, t, names):
         if is_agg(t):
             return t[3] not in names
+        uv = self._upd_variant(t)
+        if uv is not None:
+            return uv not in names
         if t in self.variant:
             return self.variant[t] not in names
         s = set(self.notvariant.get(t, ())) | set(names)
@@ -599,6 +614,9 @@ class Cons:
     def variant_of(self, t):
         if is_agg(t):
             return t[3]
+        uv = self._upd_variant(t)
+        if uv is not None:
+            return uv
         if isinstance(t, tuple) and t and t[0] == "optif":
             c = self.lookup(t[1])
             return ("Some" if c[1] else "None") if is_const(c) else None
